@@ -173,6 +173,8 @@ func canBeNumber(q query) bool {
 // processFilterNode builds query for the XPath filter predicate.
 func (b *builder) processFilter(root *filterNode, flags flag, props *builderProp) (query, error) {
 	first := (flags & flagsEnum.Filter) == 0
+	// A filtered descendant step must yield nested matches too.
+	flags &= ^flagsEnum.SmartDesc
 
 	qyInput, err := b.processNode(root.Input, (flags | flagsEnum.Filter), props)
 	if err != nil {
